@@ -109,6 +109,7 @@ type c19Case struct {
 	outIsDir   bool   // the output file path already exists as a directory
 	outIsInput bool   // the output path of one of the targets is the input file
 	outLink    string // when set: the -o argument is this symbolic link, which points to outDir
+	inLink     bool   // the -i argument is a symbolic link (via/<name>) to the input file, which lies where inputName says
 	staleTwin  bool   // the stale outputs have the size of the new outputs and are newer than the input
 	invoke     string // "" = absolute path of the binary, "path" = bare name found through PATH, "symlink" = through a symbolic link in the work directory, "relative" = relative path from a sub directory
 	badArgs    []string // complete argument list for bad-option cases (placeholders IN, OUT)
@@ -150,6 +151,14 @@ func checkC19(c *Check) {
 			}
 		}
 	}
+	// names at the limit of the file system (255 bytes): whenever the output name <stem>.<ext> still fits, the run
+	// must succeed (an implementation that writes through a longer temporary sibling name fails just below the limit)
+	for _, stem := range []int{240, 246, 247, 249, 250, 251} {
+		for _, ts := range [][]string{{"bash"}, {"batch"}, {"bash", "batch"}} {
+			name := strings.Repeat("n", stem) + ".tsh"
+			cases = append(cases, c19Case{key: fmt.Sprintf("long-name/stem=%d/t=%s", stem, strings.Join(ts, "+")), prog: progs[0], inputName: name, outDir: "out", targets: ts, argOrder: "iot", stale: stem%2 == 0})
+		}
+	}
 	// repeated targets and every program once with the plain command line (always)
 	for _, p := range progs {
 		for _, ts := range tsets {
@@ -189,6 +198,10 @@ func checkC19(c *Check) {
 				od = "."
 			}
 			cases = append(cases, c19Case{key: fmt.Sprintf("output-is-input/%s/in=%s/t=%s", p.name, hexKey(c2.in), strings.Join(c2.ts, "+")), prog: p, inputName: c2.in, outDir: od, targets: c2.ts, argOrder: "iot", outIsInput: true})
+			// the input reached through a symbolic link in another directory: the file it names is still the output path
+			if len(p.files) == 1 {
+				cases = append(cases, c19Case{key: fmt.Sprintf("output-is-input-named-by-link/%s/in=%s/t=%s", p.name, hexKey(c2.in), strings.Join(c2.ts, "+")), prog: p, inputName: c2.in, outDir: od, targets: c2.ts, argOrder: "iot", outIsInput: true, inLink: true})
+			}
 			// the same with the output directory reached through a symbolic link (and through a path with a detour)
 			if od == "out" {
 				cases = append(cases, c19Case{key: fmt.Sprintf("output-is-input-through-link/%s/in=%s/t=%s", p.name, hexKey(c2.in), strings.Join(c2.ts, "+")), prog: p, inputName: c2.in, outDir: od, targets: c2.ts, argOrder: "iot", outIsInput: true, outLink: "out-link"})
@@ -306,6 +319,7 @@ func c19Run(c *Check, cs c19Case, straceOK bool) {
 			os.WriteFile(filepath.Join(outAbs, base+e), []byte("bystander "+e+"\n"), 0o644)
 		}
 		os.WriteFile(filepath.Join(outAbs, ".tmp"), []byte("bystander\n"), 0o644)
+		os.WriteFile(filepath.Join(outAbs, ".tsh.0.tmp"), []byte("bystander\n"), 0o644)
 	}
 	if cs.outIsDir {
 		for _, t := range cs.targets {
@@ -361,6 +375,12 @@ func c19Run(c *Check, cs c19Case, straceOK bool) {
 		if cs.absInput {
 			inArg = inAbs
 		}
+		if cs.inLink {
+			os.MkdirAll(filepath.Join(work, "via"), 0o755)
+			rel, _ := filepath.Rel(filepath.Join(work, "via"), inAbs)
+			os.Symlink(rel, filepath.Join(work, "via", filepath.Base(inRel)))
+			inArg = filepath.Join("via", filepath.Base(inRel))
+		}
 		outArg := outRel
 		if strings.HasPrefix(cs.outDir, "ABS:") {
 			outArg = outAbs
@@ -398,9 +418,9 @@ func c19Run(c *Check, cs c19Case, straceOK bool) {
 		sargs := []string{"-f", "-o", filepath.Join(work, ".strace.log")}
 		switch cs.strace {
 		case "openat-eacces":
-			sargs = append(sargs, "-P", first, "-P", first+".0.tmp", "-P", first+".1.tmp", "-e", "inject=openat:error=EACCES")
+			sargs = append(sargs, "-P", first, "-P", first+".0.tmp", "-P", first+".1.tmp", "-P", filepath.Join(outAbs, ".tsh.0.tmp"), "-P", filepath.Join(outAbs, ".tsh.1.tmp"), "-e", "inject=openat:error=EACCES")
 		case "write-enospc":
-			sargs = append(sargs, "-P", first, "-P", first+".0.tmp", "-P", first+".1.tmp", "-e", "inject=write:error=ENOSPC")
+			sargs = append(sargs, "-P", first, "-P", first+".0.tmp", "-P", first+".1.tmp", "-P", filepath.Join(outAbs, ".tsh.0.tmp"), "-P", filepath.Join(outAbs, ".tsh.1.tmp"), "-e", "inject=write:error=ENOSPC")
 		case "write-enospc-any":
 			sargs = append(sargs, "-e", "inject=write:error=ENOSPC")
 		case "rename-eacces":
